@@ -163,7 +163,7 @@ def design(chk: Check, pid: str, tier: str) -> None:
             run_model(chk, 'Table: 2 boards (played 2 tricks, passed out), simulation',
                       GOOD, [b3, b0], [script_for(*b3, [35, 0, 35, 35, 35], 2, r),
                                        script_for(*b0, po, 1, r)], 2,
-                      invs=['Completed', 'BarrierShape'], props=[], simulate='num=100', depth=1500,
+                      invs=['Completed', 'BarrierShape'], props=[], simulate='num=12', depth=1500,
                       workers=16)
     elif pid in ('C08', 'C10', 'C11'):
         invs = ['Completed', 'LogPrefix', 'LogCorrect', 'SentPrefix', 'SentComplete']
@@ -184,7 +184,8 @@ def design(chk: Check, pid: str, tier: str) -> None:
             run_model(chk, 'Table: 2 boards (played 2 tricks, passed out), simulation',
                       GOOD, [b3, b0], [script_for(*b3, [35, 0, 35, 35, 35], 2, r),
                                        script_for(*b0, po, 1, r)], 2,
-                      invs=invs, props=[], simulate='num=60', depth=1500, workers=16)
+                      invs=['Completed', 'LogPrefix', 'LogCorrect', 'SentComplete'], props=[],
+                      simulate='num=6', depth=1500, workers=16)
     elif pid == 'C13':
         invs = ['AbortLog', 'LogPrefix', 'BarrierShape']
         b2 = small_board(r, 1, 1, 0)
